@@ -634,7 +634,7 @@ func simplifyStep(t *Trace, i int) []*Trace {
 
 func (c *checker) build(name string, flags []string, env []string) (string, bool) {
 	bin := filepath.Join(rootDir, ".build", name)
-	args := append([]string{"build", "-tags", "verif"}, modfileArgs()...)
+	args := append([]string{"build", "-tags", hookTags()}, modfileArgs()...)
 	args = append(args, flags...)
 	args = append(args, "-o", bin, ".")
 	cmd := exec.Command(goTool(), args...)
@@ -651,6 +651,21 @@ func (c *checker) build(name string, flags []string, env []string) (string, bool
 
 // repoDir is the tree the checks build against: /repo, unless VERIF_REPO points
 // at a snapshot of it (background runs that must not see later edits of /repo).
+// hookTags: the build tags this binary itself was built with (the check script
+// falls back to fewer hooks when a hook file does not compile against the tree).
+func hookTags() string {
+	t := "verif"
+	if !hookNode {
+		t += " verifnonode"
+	} else if !hookIter {
+		t += " verifnoiter"
+	}
+	if !hookWalk {
+		t += " verifnowalk"
+	}
+	return t
+}
+
 func repoDir() string {
 	if r := os.Getenv("VERIF_REPO"); r != "" {
 		return r
@@ -727,7 +742,21 @@ func (c *checker) handleViolations(bin string, br *batchResult, extraEnv []strin
 		return
 	}
 	// one representative per failure signature, smallest run first
+	// violations reported by a worker first (cheap to confirm), crashed runs next,
+	// suspected hangs last (each costs minutes to confirm)
+	rank := func(cd cand) int {
+		switch {
+		case cd.v != nil:
+			return 0
+		case cd.hang:
+			return 2
+		}
+		return 1
+	}
 	sort.Slice(cands, func(i, j int) bool {
+		if rank(cands[i]) != rank(cands[j]) {
+			return rank(cands[i]) < rank(cands[j])
+		}
 		if cands[i].size != cands[j].size {
 			return cands[i].size < cands[j].size
 		}
@@ -1125,6 +1154,7 @@ func (c *checker) worldCheck() (map[string]any, int, int) {
 	cov["known_finding_batches"] = kfOut
 	cov["known_finding_conditions_met"] = br.knownHits
 	cov["workers"] = c.workers
+	cov["hook_tags"] = hookTags()
 	cov["real_vs_stub"] = map[string]any{
 		"real": []string{"all go-art code incl. amd64 assembly", "sync.Pool node pool", "Go garbage collector (forced at simulated instants, automatic GC off)", "x/text collator"},
 		"stub": []string{},
@@ -1207,6 +1237,13 @@ func checkMain(args []string) int {
 		c.budget = 25 * time.Second
 	}
 	fmt.Printf("VERIF_SEED=%d property=%s tier=%s workers=%d\n", c.seed, prop, c.tier, c.workers)
+	if (prop == "C10" && !hookNode) || (prop == "C11" && !hookWalk) {
+		fmt.Fprintf(os.Stderr, "NOTE: the hook file this check is built on does not compile against the current tree (simulator built with tags [%s]); no verdict\n", hookTags())
+		return 2
+	}
+	if hookTags() != "verif" {
+		c.notes = append(c.notes, fmt.Sprintf("reduced hooks: simulator built with tags [%s]; the oracles that need the missing hook are off", hookTags()))
+	}
 
 	var cov map[string]any
 	var evals, nontriv int
@@ -1510,6 +1547,7 @@ func (c *checker) raceCheck() (map[string]any, int, int) {
 	cov["tree_instantiations"] = allKinds
 	cov["race_build"] = true
 	cov["statement_points"] = pointsInfo
+	cov["hook_tags"] = hookTags()
 	cov["real_vs_stub"] = map[string]any{
 		"real": []string{"all go-art code incl. amd64 assembly", "sync.Pool", "goroutines (real, one runnable at a time)", "ThreadSanitizer runtime"},
 		"stub": []string{},
@@ -1547,7 +1585,7 @@ func (c *checker) buildInstrumented(name string, flags []string) (string, bool, 
 	sum, _ := os.ReadFile(filepath.Join(repoDir(), "go.sum"))
 	os.WriteFile(filepath.Join(rootDir, ".build", name+".sum"), sum, 0o644)
 	bin := filepath.Join(rootDir, ".build", name)
-	args := append([]string{"build", "-modfile=" + modfile, "-tags", "verif verifpoints"}, flags...)
+	args := append([]string{"build", "-modfile=" + modfile, "-tags", hookTags() + " verifpoints"}, flags...)
 	args = append(args, "-o", bin, ".")
 	b := exec.Command(goTool(), args...)
 	b.Dir = filepath.Join(rootDir, "sim")
